@@ -263,7 +263,7 @@ let ops_of_line env line : op list =
   | ["hold_lazy"; h; s; z] -> let a = obj env s in fresh h; [OHoldLazy (n8 h 0, a, nat z)]
   | ["updates"; h; c] -> let d = DUpdates (obj env c) in fresh h; [ODef (n8 h 0, d)]
   | ["value"; h; c] -> let d = DValue (obj env c) in fresh h; [ODef (n8 h 0, d)]
-  | ["map_c"; h; c; f] -> let d = DMapC (obj env c, parse_f1 env f) in fresh h; [ODef (n8 h 0, d)]
+  | [("map_c" | "map_cmk"); h; c; f] -> let d = DMapC (obj env c, parse_f1 env f) in fresh h; [ODef (n8 h 0, d)]
   | "lift" :: h :: f :: cs -> let d = DLift (List.map (obj env) cs, parse_fn f) in fresh h; [ODef (n8 h 0, d)]
   | ["accum"; h; s; v; f] -> let a = obj env s in fresh h;
     [ODef (n8 h 1, DSLoop); OHold (n8 h 0, n8 h 1, parse_val v);
